@@ -306,6 +306,20 @@ def run(ctx):
         ctx.fixture("R09.2", nm + ":mutex", want in verdicts, True, "bad mutex storage recognised")
     g = fx(ctx, "shared_buffer")
     ctx.fixture("R09.4", "shared_buffer", g is not None and bool(static_locals(g)), True, "static/thread_local buffer recognised")
+    # R09.6 fixtures: the acquire-loop check must reject the broken spin lock, accept the correct one, and a timed lock object must not count as held
+    for nm, want_bad in (("spin_sinks::with_broken", True), ("spin_sinks::with_good", False)):
+        g = fx(ctx, nm)
+        got = None
+        if g is not None:
+            sub = type(ctx)(ctx.prop, ctx.prog, ctx.tier)
+            for bid, i, e in g.all_elems():
+                if lock_decl(e):
+                    _check_lockable(sub, g, lock_mutex_type(e) or "", e)
+            got = any(o.status not in ("ok",) for o in sub.obs) if sub.obs else None
+        ctx.fixture("R09.6", nm, got is not None and got == want_bad, True, "hand-written lock %s" % ("rejected" if want_bad else "accepted"))
+    g = fx(ctx, "spin_sinks::with_timeout")
+    res = analyse_method(g, "std::cout") if g is not None else []
+    ctx.fixture("R09.6", "spin_sinks::with_timeout", bool(res) and all(not st for _, _, st in res), True, "a timed lock object is not taken as holding the mutex")
 
     # ---- R09.3: logger / smart_stream / other code never touches the streams
     offenders = 0
